@@ -277,6 +277,14 @@ type Facts struct {
 	// axioms: atom string -> expansion S with the knowledge atom ⇔ S (recorded when a helper's `err == nil` is met in default mode)
 	axioms map[string]*Formula
 	axAtom map[string]*Formula
+	// impl: atom string -> (found, S) with the knowledge found ⇒ S, where found is the atom or its negation
+	// (library contract of slices.IndexFunc: a non-negative result indexes an element that satisfies the predicate)
+	impl map[string]implAxiom
+}
+
+type implAxiom struct {
+	found *Formula
+	S     *Formula
 }
 
 func NewFacts(p *Prog, fn *ssa.Function, o *Origin) *Facts {
@@ -356,6 +364,15 @@ func (fa *Facts) At(b *ssa.BasicBlock) *Formula {
 			}
 		}
 	}
+	if len(fa.impl) > 0 {
+		have := map[string]*Formula{}
+		f.atoms(have)
+		for k := range have {
+			if ax, ok := fa.impl[k]; ok {
+				f = fAnd(f, fOr(fNot(ax.found), ax.S))
+			}
+		}
+	}
 	fa.memo[b] = f
 	return f
 }
@@ -396,6 +413,12 @@ func (fa *Facts) edgeCond(cur *ssa.BasicBlock, si int, path []*ssa.BasicBlock) *
 	c := fa.valueFormula(iff.Cond, fa.o, path, 0)
 	if si == 0 {
 		return c
+	}
+	if !fa.NoExpand {
+		// leaving a loop over a literal table by exhaustion: every element went through the body and came back (tableloop.go)
+		if tl := tableLoopAt(cur); tl != nil {
+			return fAnd(fNot(c), fa.unrolled(tl, fa.o, 0))
+		}
 	}
 	return fNot(c)
 }
@@ -483,6 +506,9 @@ func (fa *Facts) valueFormula(v ssa.Value, o *Origin, path []*ssa.BasicBlock, de
 				}
 			}
 		}
+		if !fa.NoExpand && depth < 4 {
+			fa.indexFuncContract(x, o, a, b, depth)
+		}
 		switch x.Op {
 		case token.EQL:
 			return cmpAtom("==", a, b)
@@ -506,6 +532,25 @@ func (fa *Facts) valueFormula(v ssa.Value, o *Origin, path []*ssa.BasicBlock, de
 			if f := fa.predicateSummary(callee, x, o, depth); f != nil {
 				return f
 			}
+		} else if callee == nil && !x.Call.IsInvoke() && !fa.NoExpand && depth < 4 {
+			// a call of a function value that resolves to a bound method, a plain function or a function literal of this
+			// function (an element of a literal table of checks): the call is that function's call
+			if g, recv, fvs, ok := fa.closureTarget(o, x.Call.Value); ok && InModule(g) && g.Blocks != nil {
+				args := append([]*Term(nil), recv...)
+				for _, a := range x.Call.Args {
+					args = append(args, o.argAt(a, x))
+				}
+				if f := fa.predicateSummaryArgs(g, args, fvs, fa.p.Pos(x.Pos()), o, depth); f != nil {
+					return f
+				}
+				if fvs == nil {
+					t := &Term{Op: "call", Name: FuncName(g), Args: args, Val: x}
+					if !pureCallees[t.Name] {
+						t.Site = o.siteOf(x)
+					}
+					return &Formula{Kind: FAtom, Atom: t.String(), Term: t}
+				}
+			}
 		}
 	}
 	t := o.Of(v)
@@ -515,6 +560,16 @@ func (fa *Facts) valueFormula(v ssa.Value, o *Origin, path []*ssa.BasicBlock, de
 // predicateSummary expands a call to a bool-returning, acyclic module function into a formula over
 // the caller's terms, by enumerating the callee's paths.
 func (fa *Facts) predicateSummary(callee *ssa.Function, call *ssa.Call, o *Origin, depth int) *Formula {
+	var args []*Term
+	for _, a := range call.Call.Args {
+		args = append(args, o.Of(a))
+	}
+	return fa.predicateSummaryArgs(callee, args, nil, fa.p.Pos(call.Pos()), o, depth)
+}
+
+// predicateSummaryArgs: the same for a callee given with the terms of its arguments (and, for a function literal, of its free
+// variables). Loops over a literal table whose only early exit is `return false` count as the conjunction they are.
+func (fa *Facts) predicateSummaryArgs(callee *ssa.Function, args []*Term, fvs []*Term, callPos string, o *Origin, depth int) *Formula {
 	if !InModule(callee) || callee.Blocks == nil || fa.p.IsGenerated(callee) {
 		return nil
 	}
@@ -525,11 +580,26 @@ func (fa *Facts) predicateSummary(callee *ssa.Function, call *ssa.Call, o *Origi
 	if b, ok := res.At(0).Type().Underlying().(*types.Basic); !ok || b.Kind() != types.Bool {
 		return nil
 	}
-	if len(callee.Blocks) > 40 || !isPureFn(callee, 0) {
+	inTable := map[*ssa.BasicBlock]bool{}
+	for _, b := range callee.Blocks {
+		if tl := tableLoopAt(b); tl != nil && tl.summarisable() {
+			for lb := range tl.blocks {
+				inTable[lb] = true
+			}
+		}
+	}
+	if len(callee.Blocks) > 40 {
 		return nil
 	}
+	if !isPureFn(callee, 0) {
+		// a finite conjunction written as a loop over a literal table is expanded even when the functions it calls are not
+		// pure (they stay atoms): it calls module functions only, statically, and hands no sdk.Context on
+		if len(inTable) == 0 || !callsOnlyStaticModuleFuncs(callee) {
+			return nil
+		}
+	}
 	for _, b := range callee.Blocks {
-		if inCycle(b) {
+		if inCycle(b) && !inTable[b] {
 			return nil
 		}
 		for _, in := range b.Instrs {
@@ -539,6 +609,11 @@ func (fa *Facts) predicateSummary(callee *ssa.Function, call *ssa.Call, o *Origi
 			case *ssa.Store:
 				// stores into locals (spilled parameters, composite literals) are fine; anything else is an effect
 				if al, _ := rootAlloc(x.Addr); al == nil {
+					if ia, isIdx := x.Addr.(*ssa.IndexAddr); isIdx {
+						if al2, _ := rootAlloc(ia.X); al2 != nil {
+							continue // an element of a local array (a literal table under construction)
+						}
+					}
 					return nil
 				}
 			}
@@ -546,12 +621,15 @@ func (fa *Facts) predicateSummary(callee *ssa.Function, call *ssa.Call, o *Origi
 	}
 	sub := &Origin{p: fa.p, fn: callee, env: map[*ssa.Parameter]*Term{}, fvenv: map[*ssa.FreeVar]*Term{},
 		depth: o.depth + 1, memo: map[ssa.Value]*Term{}, busy: map[ssa.Value]bool{},
-		site: o.site + fa.p.Pos(call.Pos()) + ">"}
-	var args []ssa.Value
-	args = append(args, call.Call.Args...)
+		site: o.site + callPos + ">"}
 	for i, prm := range callee.Params {
 		if i < len(args) {
-			sub.env[prm] = o.Of(args[i])
+			sub.env[prm] = args[i]
+		}
+	}
+	for i, fv := range callee.FreeVars {
+		if i < len(fvs) {
+			sub.fvenv[fv] = fvs[i]
 		}
 	}
 	subFacts := &Facts{p: fa.p, fn: callee, o: sub, memo: map[*ssa.BasicBlock]*Formula{}}
@@ -577,6 +655,16 @@ func (fa *Facts) predicateSummary(callee *ssa.Function, call *ssa.Call, o *Origi
 			rv := subFacts.valueFormula(t.Results[0], sub, path, depth+1)
 			disj = append(disj, fAnd(append(append([]*Formula(nil), conj...), rv)...))
 		case *ssa.If:
+			if inTable[cur] {
+				tl := tableLoopAt(cur)
+				if tl == nil {
+					ok = false // a block inside a table loop is only entered through the loop's summary
+					return
+				}
+				u := subFacts.unrolled(tl, sub, depth+1)
+				dfs(tl.done, append(append([]*Formula(nil), conj...), u))
+				return
+			}
 			c := subFacts.valueFormula(t.Cond, sub, path, depth+1)
 			dfs(cur.Succs[0], append(append([]*Formula(nil), conj...), c))
 			dfs(cur.Succs[1], append(append([]*Formula(nil), conj...), fNot(c)))
@@ -785,7 +873,7 @@ func definitelyError(v ssa.Value, depth int) bool {
 			}
 		}
 	case *ssa.UnOp:
-		if g, ok := x.X.(*ssa.Global); ok && strings.HasPrefix(g.Name(), "Err") {
+		if g, ok := x.X.(*ssa.Global); ok && (strings.HasPrefix(g.Name(), "Err") || errorSentinel(g)) {
 			return true
 		}
 	case *ssa.ChangeInterface:
@@ -799,6 +887,58 @@ func definitelyError(v ssa.Value, depth int) bool {
 		return len(x.Edges) > 0
 	}
 	return false
+}
+
+// errorSentinel: a package-level variable of the module that is assigned exactly once, by the package initialiser, from an error
+// constructor, and whose address is taken nowhere else (`var errEmptyID = errors.New("…")`).
+var sentinelMemo = map[*ssa.Global]bool{}
+
+func errorSentinel(g *ssa.Global) bool {
+	if v, ok := sentinelMemo[g]; ok {
+		return v
+	}
+	sentinelMemo[g] = false
+	if g.Pkg == nil || !InModulePkg(g.Pkg) || progForFacts == nil {
+		return false
+	}
+	initFn := g.Pkg.Func("init")
+	if initFn == nil {
+		return false
+	}
+	stores := 0
+	for _, b := range initFn.Blocks {
+		for _, in := range b.Instrs {
+			if st, ok := in.(*ssa.Store); ok && st.Addr == ssa.Value(g) {
+				stores++
+				if !definitelyError(st.Val, 1) {
+					return false
+				}
+			}
+		}
+	}
+	if stores != 1 {
+		return false
+	}
+	// everywhere else the variable is only loaded
+	for _, fn := range progForFacts.ModFuncs {
+		if fn.Pkg != g.Pkg && !token.IsExported(g.Name()) {
+			continue
+		}
+		for _, b := range fn.Blocks {
+			for _, in := range b.Instrs {
+				for _, op := range in.Operands(nil) {
+					if *op != ssa.Value(g) {
+						continue
+					}
+					if u, ok := in.(*ssa.UnOp); !ok || u.Op != token.MUL {
+						return false
+					}
+				}
+			}
+		}
+	}
+	sentinelMemo[g] = true
+	return true
 }
 
 func describe(v interface{}) string { return fmt.Sprintf("%v", v) }
